@@ -16,6 +16,7 @@ claimed={
  "C18":("DESIGN.md section 5 C18","symbolic execution of the value writers and ParseValue over symbolic strings (all byte values), E value trees with S leaves, reference JSON reader; round-trip equalities decided by z3"),
  "C19":("DESIGN.md section 5 C19","symbolic execution of the subscription branch of ResolveExecutable, subscribe, Subscription.prep, AddEvent and Unsubscribe from registries built through real subscription requests; every Match answer and Send failure is a free symbolic boolean per (subscriber, operation), event payloads symbolic; lock-step reference registry model and reference executor for the delivered selection; z3 decides every pattern"),
  "C20":("DESIGN.md section 5 C20","symbolic execution of subscribe/AddEvent/Unsubscribe called from 2-3 goroutines under the engine's scheduler: the thread to run at every synchronisation point is a decision explored like a data branch, Match answers and Send failures are free symbolic booleans, a vector-clock happens-before monitor watches every memory cell; oracle = per-subscriber delivery/clean-up predicates over logical time stamps; schedule-dependent counterexamples are replayed natively under the recorded schedule (mutex overlay), races under the Go race detector"),
+ "C02":("DESIGN.md section 5 C02","symbolic execution of resolveField's strategy dispatch, resolveReflect, regField, assureType, RegisterType/RegisterField, resolveList (ListResolver, []interface{}, typed slice, AnyResolver, reflected slice) and formArgs/formReflectArgs over one neutral data graph (symbolic leaves, null-ness, list variants) instantiated as Resolver nodes, maps behind an AnyResolver, structs/methods by reflection (auto and registered) and E-assigned mixed graphs; request shapes from the kit grammar plus string/boolean argument documents with symbolic values; responses compared by one solver term; precedence through the call log"),
  "C03":("DESIGN.md section 5 C03","symbolic execution of the SSA of both parsers, the value reader/writers and the resolver over all byte strings up to N bytes, hole templates with symbolic bytes, hostile request families x three strategies, symbolic reader fault offsets; implicit panic / call-depth / instruction-budget checks decided by z3; native replay"),
  "C04":("DESIGN.md section 5 C04","symbolic execution of the SSA of every scalar CoerceIn with full-width symbolic integers and floats and symbolic strings, and of ParseExecutable+ResolveExecutable (opVars, formArgs, replaceArgVars, List/NonNull/Input/Enum.CoerceIn) with written values delivered as literals, variables, variable defaults and nested in list/object literals: symbolic digits, signs, boundary templates around 2^31, 2^32 and 2^63, presence patterns; oracle = reference input coercion in the harness; z3 verdicts; native replay"),
  "C05":("DESIGN.md section 5 C05","symbolic execution of the SSA of every scalar CoerceOut with full-width symbolic integers and floats and symbolic strings; SMT (z3) verdicts; native replay of models"),
